@@ -6,6 +6,7 @@ import (
 	"go/parser"
 	"go/token"
 	"os"
+	"regexp"
 	"strings"
 
 	"verif/harness/core"
@@ -30,6 +31,8 @@ type fileComments struct {
 	All    []string
 }
 
+var c17Directive = regexp.MustCompile(`^//(line |extern |export |[a-z0-9]+:[a-z0-9])`)
+
 func modelComments(src string) (*fileComments, error) {
 	fs := token.NewFileSet()
 	f, err := parser.ParseFile(fs, "x.go", src, parser.ParseComments|parser.SkipObjectResolution)
@@ -44,7 +47,7 @@ func modelComments(src string) (*fileComments, error) {
 		}
 		fc.Decls = append(fc.Decls, dc)
 	}
-	line := func(p token.Pos) int { return fs.Position(p).Line }
+	line := func(p token.Pos) int { return fs.PositionFor(p, false).Line } // physical lines, whatever //line directives say
 	for _, cg := range f.Comments {
 		for _, c := range realComments(cg) {
 			fc.All = append(fc.All, c.Text)
@@ -82,9 +85,16 @@ func modelComments(src string) (*fileComments, error) {
 		for i, d := range f.Decls {
 			if cg.End() <= d.Pos() {
 				if line(cg.End())+1 == line(d.Pos()) {
+					// gofmt's doc comment form keeps directive lines (//line, //go:...) at the end of the comment: layout
+					var dirs []string
 					for _, c := range realComments(cg) {
+						if c17Directive.MatchString(c.Text) {
+							dirs = append(dirs, c.Text)
+							continue
+						}
 						fc.Decls[i].Doc = append(fc.Decls[i].Doc, c.Text)
 					}
+					fc.Decls[i].Doc = append(fc.Decls[i].Doc, dirs...)
 				} else {
 					for _, c := range realComments(cg) {
 						fc.Decls[i].Detached = append(fc.Decls[i].Detached, c.Text)
@@ -222,8 +232,19 @@ var c17Patches = []string{
 	"@@\nvar x expression\n@@\n-import \"os\"\n+import \"example.com/sys\"\n\n-os.Exit(x)\n+sys.Exit(x)\n",
 }
 
+var c17PlusCommentPatches = []string{
+	"@@\nvar N identifier\n@@\n type N struct {\n   ...\n-  Name string\n+  // Host to listen on.\n+  Host string // defaults to localhost\n   ...\n }\n",
+	"@@\nvar n identifier\n@@\n-var n = 1\n+// n is documented by the patch\n+var n = 2 // two\n",
+	"@@\nvar N identifier\n@@\n type N interface {\n   ...\n-  Close() error\n+  // Shut closes.\n+  Shut() error // was Close\n   ...\n }\n",
+	"@@\nvar N identifier\n@@\n-type N struct {\n-  ...\n-}\n+// N is replaced.\n+type N struct {\n+  // only field\n+  X int // x\n+}\n",
+	"@@\nvar f identifier\n@@\n func f() {\n+  // entering\n+  enter() // trace\n   ...\n }\n",
+}
+
 // commentDenseFile generates a file with comments of every kind at every attachment point.
 func commentDenseFile(g *gen.G) string { return commentDenseFileImports(g, false) }
+
+// c17LineDirectives: the generated files carry //line directives (see runC17).
+var c17LineDirectives = false
 
 // commentDenseFileImports: with needImports the file always has import declarations (for import-changing patches).
 func commentDenseFileImports(g *gen.G, needImports bool) string {
@@ -284,7 +305,14 @@ func commentDenseFileImports(g *gen.G, needImports bool) string {
 		fmt.Fprintf(&sb, "type TFirst struct {\n\t%s\n\tA int %s\n\tB string\n\t%s\n}\n\n", cm("line"), cm("line"), cm("block"))
 	}
 	nd := 2 + r.Intn(7)
+	lineDirectives := c17LineDirectives // generated-parser style: //line directives renumber what follows
 	for i := 0; i < nd; i++ {
+		if lineDirectives && r.Intn(2) == 0 {
+			fmt.Fprintf(&sb, "//line gram%d.y:%d\n", i, 1+r.Intn(40))
+			if r.Intn(2) == 0 {
+				sb.WriteString("\n")
+			}
+		}
 		if r.Intn(3) == 0 {
 			sb.WriteString(cm("line") + "\n\n") // free-standing
 		}
@@ -328,7 +356,12 @@ func commentDenseFileImports(g *gen.G, needImports bool) string {
 			}
 			switch r.Intn(9) {
 			case 0:
-				fmt.Fprintf(&sb, "\tfoo(a%d, %s 1)%s\n", j, cm("block"), tail)
+				if r.Intn(2) == 0 {
+					// a site that spans several physical lines and collapses when rewritten
+					fmt.Fprintf(&sb, "\tfoo(\n\t\ta%d,\n\t\t1,\n\t)%s\n", j, tail)
+				} else {
+					fmt.Fprintf(&sb, "\tfoo(a%d, %s 1)%s\n", j, cm("block"), tail)
+				}
 			case 1:
 				fmt.Fprintf(&sb, "\tw%d := foo(b, 1)%s\n", j, tail)
 			case 2:
@@ -382,6 +415,7 @@ func runC17(ctx *core.Ctx, idx int) *core.Result {
 	g := gen.NewG(r)
 	var pt string
 	var srcs []string
+	lineDirs := false
 	if idx%4 == 3 {
 		c := corpusChange(idx / 4)
 		pt = c.PatchText()
@@ -408,6 +442,20 @@ func runC17(ctx *core.Ctx, idx int) *core.Result {
 			srcs = append(srcs, g.File(gen.FileOpts{Plants: plants, Decls: 4 + r.Intn(8)}))
 		}
 		res.Ob("random-pattern-cases", 1)
+	} else if idx%16 == 5 {
+		// Go comments on '+' lines that the parser attaches to nodes (doc and line comments of fields, specs, methods):
+		// they are not in the input, so they are not in the output - also when the file has no comment of its own
+		pt = c17PlusCommentPatches[r.Intn(len(c17PlusCommentPatches))]
+		for f := 0; f < 4; f++ {
+			s := "package p\n\ntype Conf" + fmt.Sprint(f) + " struct {\n\tA int\n\tName string\n}\n\nvar tgtV" + fmt.Sprint(f) + " = 1\n\ntype Svc" + fmt.Sprint(f) + " interface {\n\tClose() error\n}\n\nfunc fn" + fmt.Sprint(f) + "() {\n\tother(1)\n}\n"
+			if f%2 == 1 {
+				s = commentDenseFile(g) + strings.TrimPrefix(s, "package p\n")
+			}
+			if gen.Parses(s) {
+				srcs = append(srcs, s)
+			}
+		}
+		res.Ob("plus-side-comment-cases", 1)
 	} else {
 		pi := r.Intn(len(c17Patches))
 		pt = c17Patches[pi]
@@ -419,16 +467,30 @@ func runC17(ctx *core.Ctx, idx int) *core.Result {
 			// an earlier change that matches somewhere, then a declaration-replacing change
 			pt = c17Patches[r.Intn(3)] + "\n" + c17Patches[12+r.Intn(3)] + "\n" + pt
 		}
+		// every 5th case: files with //line directives. The import processing of golang.org/x/tools reads line
+		// numbers as the directives renumber them and moves comments around on its own (a known finding, probed
+		// by c17LineDirectiveProbe), so these files are run with --skip-import-processing: gopatch's own handling
+		// of the directives (changed regions, merged lines) is what is being watched
+		lineDirs = idx%5 == 1 && !needImports
+		c17LineDirectives = lineDirs
 		for f := 0; f < 6; f++ {
 			s := commentDenseFileImports(g, needImports)
 			if gen.Parses(s) {
 				srcs = append(srcs, s)
 			}
 		}
+		c17LineDirectives = false
+	}
+	if idx%64 == 33 {
+		c17LineDirectiveProbe(ctx, res)
 	}
 	paths := [][]engineRun{applyAPI(pt, srcs)}
 	pnames := []string{"api"}
-	if idx%3 == 0 {
+	if lineDirs {
+		runs, _ := applyCLI(ctx, pt, srcs, "--skip-import-processing")
+		paths, pnames = [][]engineRun{runs}, []string{"cli-skip-import-processing"}
+		res.Ob("line-directive-cases", 1)
+	} else if idx%3 == 0 {
 		runs, _ := applyCLI(ctx, pt, srcs)
 		paths = append(paths, runs)
 		pnames = append(pnames, "cli")
@@ -492,4 +554,27 @@ func realComments(cg *ast.CommentGroup) []*ast.Comment {
 		out = append(out, c)
 	}
 	return out
+}
+
+// c17LineDirectiveProbe is the directed input of the known finding C17/line-directive-vs-import-processing: with import
+// processing on, golang.org/x/tools/internal/imports reads line numbers with token.File.Line, i.e. as //line directives
+// renumber them; comments whose renumbered lines fall on the lines of the import block are attached to import specs,
+// and a directive in front of a doc comment is moved behind it.
+func c17LineDirectiveProbe(ctx *core.Ctx, res *core.Result) {
+	src := "package p\n\nimport (\n\t\"fmt\"\n\t\"os\"\n\t\"strings\"\n)\n\n//line gram0.y:2\n\n// c3\n\nfunc old0(marker int) { // c4\n\tother(0) // c5\n} // c6\n\n//line gram1.y:27\n// c10\n// c11\nfunc f1() int {\n\tfoo(b, 1)\n\tfmt.Println(os.Args, strings.ToUpper(\"x\"))\n\treturn 0\n}\n"
+	pt := "@@\nvar x, y expression\n@@\n-foo(x, y)\n+bar(y, x)\n"
+	runs := applyAPI(pt, []string{src})
+	res.Evals++
+	if runs[0].Pan != "" || runs[0].Err != "" {
+		res.Violate("C17/line-directive-probe-failed", runs[0].Pan+runs[0].Err, replayFiles(pt, src, ""))
+		return
+	}
+	if class, detail, _, _ := judgeComments(src, runs[0].Out); class != "" {
+		res.Violate("C17/line-directive-vs-import-processing", "["+class+"] "+detail, replayFiles(pt, src, runs[0].Out))
+	}
+	// the same file without import processing: gopatch's own part must be right
+	cr, _ := applyCLI(ctx, pt, []string{src}, "--skip-import-processing")
+	if class, detail, _, _ := judgeComments(src, cr[0].Out); class != "" || cr[0].Err != "" {
+		res.Violate("C17/"+class+"/line-directive-without-import-processing", detail+cr[0].Err, replayFiles(pt, src, cr[0].Out))
+	}
 }
